@@ -73,8 +73,6 @@ static int cheap(ZSTD_CCtx* c, int isStatic) {
 static int buffered_req(ZSTD_CCtx* c) { return cgetv(c, ZSTD_c_stableInBuffer) == 0 && cgetv(c, ZSTD_c_stableOutBuffer) == 0; }
 static int buffered_applied(ZSTD_CCtx* c) { return c->appliedParams.inBufferMode == ZSTD_bm_buffered && c->appliedParams.outBufferMode == ZSTD_bm_buffered; }
 static int cmid(ZSTD_CCtx* c) { return c->streamStage != zcss_init; }
-/* a pledge is pending for the next frame (the scripts never pledge: only a stale one can be there) */
-static int stale_pledge(ZSTD_CCtx* c) { return !cmid(c) && c->pledgedSrcSizePlusOne != 0; }
 static int cdictcode(ZSTD_CCtx* c) {
     if (c->localDict.dict) return c->localDict.cdict ? 2 : 1;
     if (c->cdict) return 3;
@@ -142,12 +140,12 @@ int main(void) {
             else if (!strcmp(op, "cget")) { int v = 0; size_t const r = ZSTD_CCtx_getParameter(c, (ZSTD_cParameter)b, &v); printf("%s %d\n", cls(r), ZSTD_isError(r) ? 0 : v); }
             else if (!strcmp(op, "creset")) printf("%s\n", cls(ZSTD_CCtx_reset(c, (ZSTD_ResetDirective)b)));
             else if (!strcmp(op, "cbegin")) {
-                if (!cheap(c, o) || stale_pledge(c) || (cmid(c) ? !buffered_applied(c) : !buffered_req(c))) printf("skip\n");
+                if (!cheap(c, o) || (cmid(c) ? !buffered_applied(c) : !buffered_req(c))) printf("skip\n");
                 else { ZSTD_inBuffer in = { srcA, sizeof(srcA), 0 }; ZSTD_outBuffer out = { sout[o], outCap, soutPos[o] };
                     size_t const r = ZSTD_compressStream2(c, &out, &in, ZSTD_e_continue); soutPos[o] = out.pos;
                     printf("%s\n", ZSTD_isError(r) ? "err" : (in.pos == in.size ? "ok" : "err partial")); } }
             else if (!strcmp(op, "cend")) {
-                if (!cheap(c, o) || stale_pledge(c) || (cmid(c) ? !buffered_applied(c) : !buffered_req(c))) printf("skip\n");
+                if (!cheap(c, o) || (cmid(c) ? !buffered_applied(c) : !buffered_req(c))) printf("skip\n");
                 else { int const known = !cmid(c); ZSTD_inBuffer in = { srcA, 0, 0 }; ZSTD_outBuffer out = { sout[o], outCap, soutPos[o] };
                     size_t const r = ZSTD_compressStream2(c, &out, &in, ZSTD_e_end); (void)known;
                     if (ZSTD_isError(r) || r != 0) printf("err %s\n", ZSTD_isError(r) ? ZSTD_getErrorName(r) : "unfinished");
